@@ -1012,6 +1012,20 @@ pub fn gen_inner(g: &mut Gen) -> (SolverOpt, bool) {
     }
 }
 
+/// flash options: default (50 %), sampled (25 %: max_iter 20-800, tol 1e-11..1e-6) or a small
+/// max_iter of 1..5 outer cycles with the default tolerance (25 %): the flash either reports
+/// NotConverged or returns phases that meet the default tolerance
+pub fn gen_flash_opt(g: &mut Gen) -> SolverOpt {
+    match g.index(4) {
+        0 | 1 => SolverOpt::default(),
+        2 => gen_opt(g, 1.0, (20, 800), (1e-11, 1e-6)),
+        _ => SolverOpt {
+            max_iter: Some(g.int(1, 5) as usize),
+            tol: None,
+        },
+    }
+}
+
 pub fn decode_points(g: &mut Gen) -> PointsCase {
     let mix = gen_mixpoint(g, 3);
     let (inner, loose) = gen_inner(g);
@@ -1024,7 +1038,7 @@ pub fn decode_points(g: &mut Gen) -> PointsCase {
         theta: g.range(0.02, 0.98),
         inner,
         outer,
-        flash: gen_opt(g, 0.4, (20, 800), (1e-11, 1e-6)),
+        flash: gen_flash_opt(g),
         p_factor: if g.bool(0.5) { Some(g.log_range(1.0 / 3.0, 3.0)) } else { None },
         x2_shift: if g.bool(0.5) { Some(g.range(-1.0, 1.0)) } else { None },
         t_init_rel: g.range(0.95, 1.05),
@@ -1158,6 +1172,9 @@ pub fn check_points(case: &PointsCase, obs: &mut Obs) {
             PhaseEquilibrium::tp_flash(&b.eos, b.t, pq, &feed_q, init.as_ref(), case.flash.to(), None)
         };
         class_result(obs, "flash", &r);
+        if case.flash.max_iter.map(|m| m <= 5).unwrap_or(false) {
+            class_result(obs, "flash with max_iter <= 5", &r);
+        }
         let ftag = if case.flash.is_default() { "flash default" } else { "flash variant" };
         if let Ok(pe) = &r {
             let (beta, kdev) = check_flash(obs, ftag, pe, b.t, p, &feed_q.to_reduced(), &tols_flash(&case.flash));
@@ -1482,6 +1499,136 @@ pub fn check_hetero(case: &HeteroCase, obs: &mut Obs) {
 }
 
 // ---------------------------------------------------------------------------------------
+// part `nearcrit`: flashes 2-5 % below the critical temperature of the feed composition
+// ---------------------------------------------------------------------------------------
+/// light hydrocarbons of gross2001 whose binary mixtures are used near their critical points
+pub const LIGHT_HC: [&str; 12] = [
+    "methane", "ethane", "propane", "butane", "pentane", "hexane", "isobutane", "isopentane", "neopentane", "ethylene", "propylene", "1-butene",
+];
+pub const NEARCRIT_T: [f64; 4] = [0.95, 0.96, 0.97, 0.98];
+pub const NEARCRIT_X: [f64; 4] = [0.2, 0.4, 0.6, 0.8];
+pub const NEARCRIT_ITER: [Option<usize>; 4] = [None, Some(1), Some(2), Some(3)];
+
+#[derive(Serialize, Deserialize, Clone, Debug)]
+pub struct NearCritCase {
+    pub spec: ModelSpec,
+    pub x: Vec<f64>,
+    /// T / T_c(x) with T_c(x) from State::critical_point of the feed composition
+    pub t_rel_c: f64,
+    /// position of the flash pressure between dew and bubble pressure
+    pub theta: f64,
+    /// max_iter of the flash (default tolerance)
+    pub max_iter: Option<usize>,
+}
+
+pub fn nearcrit_items(stride: usize) -> Vec<NearCritCase> {
+    let recs: Vec<Value> = LIGHT_HC.iter().filter_map(|n| find_rec(0, n)).collect();
+    let mut out = vec![];
+    let mut k = 0usize;
+    for i in 0..recs.len() {
+        for j in i + 1..recs.len() {
+            k += 1;
+            if k % stride != 0 {
+                continue;
+            }
+            for x in NEARCRIT_X {
+                for t_rel_c in NEARCRIT_T {
+                    for max_iter in NEARCRIT_ITER {
+                        out.push(NearCritCase {
+                            spec: ModelSpec {
+                                family: Family::PcSaft,
+                                pure: vec![recs[i].clone(), recs[j].clone()],
+                                binary: vec![],
+                                seg: None,
+                                opts: Opts::default(),
+                                source: "PcSaftHc2001".into(),
+                            },
+                            x: vec![x, 1.0 - x],
+                            t_rel_c,
+                            theta: 0.5,
+                            max_iter,
+                        });
+                    }
+                }
+            }
+        }
+    }
+    out
+}
+
+/// model, temperature and (p_dew, p_bub) of a near-critical case; None: discard recorded
+pub fn build_nearcrit(case: &NearCritCase, obs: &mut Obs) -> Option<(Built, f64, f64)> {
+    let spec = &case.spec;
+    set_label(format!("near-critical {:?} x {:?} T/Tc(x) {} max_iter {:?}", spec.pure.iter().map(rec_name).collect::<Vec<_>>(), case.x, case.t_rel_c, case.max_iter));
+    obs.class(format!("T/Tc(x)={}", case.t_rel_c));
+    let eos = match spec.build() {
+        Ok(m) => m,
+        Err(e) => {
+            obs.discard(format!("build:{}", e.chars().take(40).collect::<String>()));
+            return None;
+        }
+    };
+    let x = Array1::from_vec(case.x.clone());
+    let tc_mix = match State::critical_point(&eos, Some(&(x.clone() * MOL)), None, SolverOptions::default()) {
+        Ok(cp) => cp.temperature.convert_to(KELVIN),
+        Err(e) => {
+            obs.discard(format!("mixture critical point: {}", err_name(&e)));
+            return None;
+        }
+    };
+    let tc: Vec<f64> = (0..spec.n()).map(|i| pure_tc(spec, &eos, i)).collect();
+    let b = Built {
+        eos,
+        tc,
+        t: case.t_rel_c * tc_mix * KELVIN,
+        x,
+    };
+    let (bub, dew) = envelope(&b);
+    let (bub, dew) = match (bub, dew) {
+        (Ok(bu), Ok(de)) => (bu, de),
+        (Err(e), _) => {
+            obs.discard(format!("no bubble point: {}", err_name(&e)));
+            return None;
+        }
+        (_, Err(e)) => {
+            obs.discard(format!("no dew point: {}", err_name(&e)));
+            return None;
+        }
+    };
+    let tol_b = tols_bubble(&SolverOpt::default());
+    let ok = check_bubble_dew_t(obs, "near-critical bubble(T)", &bub, true, b.t, &b.x, &tol_b) & check_bubble_dew_t(obs, "near-critical dew(T)", &dew, false, b.t, &b.x, &tol_b);
+    let (pb, pd) = (p_of(&bub), p_of(&dew));
+    if !ok || !(pb > pd) {
+        obs.discard("no usable envelope at the near-critical temperature");
+        return None;
+    }
+    Some((b, pd, pb))
+}
+
+pub fn check_nearcrit(case: &NearCritCase, obs: &mut Obs) {
+    let Some((b, pd, pb)) = build_nearcrit(case, obs) else { return };
+    let p = pd + case.theta * (pb - pd);
+    let opt = SolverOpt {
+        max_iter: case.max_iter,
+        tol: None,
+    };
+    let feed = b.x.clone() * MOL;
+    let r = PhaseEquilibrium::tp_flash(&b.eos, b.t, Pressure::from_reduced(p), &feed, None, opt.to(), None);
+    let what = match case.max_iter {
+        Some(m) => format!("near-critical flash max_iter {m}"),
+        None => "near-critical flash default".to_string(),
+    };
+    class_result(obs, &what, &r);
+    if let Ok(pe) = &r {
+        // whatever max_iter: a returned result answers to the (default) flash tolerance
+        let (beta, _) = check_flash(obs, &what, pe, b.t, p, &feed.to_reduced(), &tols_flash(&opt));
+        if beta > 0.02 && beta < 0.98 {
+            obs.nontrivial();
+        }
+    }
+}
+
+// ---------------------------------------------------------------------------------------
 const PART_POINTS: PartCfg = PartCfg {
     name: "points",
     genome_len: 64,
@@ -1517,7 +1664,7 @@ pub fn scaled(p: &PartCfg) -> PartCfg {
 }
 
 pub fn run(ctx: &Ctx) {
-    ctx.set_rule("lattice (seed-independent, success clause): hydrocarbon pairs of gross2001 (formula only C,H) with pure-T_c ratio < 1.5 x T/T_c,low in {0.65,..,0.9} x x_1 in {0.05,0.2,..,0.95}; each case = bubble(T,x) + dew(T,x) with default options and with two loose inner option sets (max_iter 2 / tol 1e-2; tol 1e-2) under default outer options + flashes at p = p_dew + theta (p_bub - p_dew), theta in {0.1,0.5,0.9} when p_bub/p_dew > 1.05, at theta = 0.5 also with an initial state solved at T (1 +- 2 %) (narrower envelopes excluded and counted as a class); quick tier: every 4th admissible pair, thorough: all pairs. points (sampled): binary/ternary mixtures of shipped PC-SAFT hydrocarbons (all files), other PC-SAFT records of the small files, gc-PC-SAFT (gc_substances x 3 segment tables), SAFT-VR Mie (lafitte2013); partner records chosen with T_c ratio < 1.8; k_ij in +-0.08 (p 0.6) or the shipped binary record; T/T_c,low in [0.6,0.95]; composition in the simplex with x_i >= 0.02; option pairs (inner: default 40 %, tight 20 % (max_iter 2-20, tol 1e-11..1e-7), loose 40 % (max_iter 1-5 and/or tol 1e-6..1e-2, then mostly with default outer options); outer 30-800, 1e-12..1e-8; flash 20-800, 1e-11..1e-6), initial pressure within a factor 3, perturbed incipient composition, p-specification with initial T within 5 %, flash initial states (perturbed phases, bubble-point phases, the converged result re-fed with another feed, a flash result solved at T (1 +- 1..4 %)), State::tp_flash vs PhaseEquilibrium::tp_flash, feed amount 1e-2..1e2 mol. diagram (sampled): binary_vle at given T / at given p, bubble_point_line, dew_point_line with npoints in [5,60]. hetero (sampled): gross2002 water + 11 alcohols / 10 hydrocarbons, 290-420 K: heteroazeotrope(T), heteroazeotrope(p), binary_vlle, PhaseDiagram::lle, liquid-liquid tp_flash. Non-trivial: a flash with vapor fraction in (0.02,0.98) and all |K_i - 1| > 5 %; or >= 2 checked bubble/dew results with |K_i - 1| > 5 % of which one used a non-default option or guess; diagrams: >= 3 regular states with |K_i-1| > 5 %; hetero: liquids differing by > 0.05 in x_water. Distinct by hash of the canonical case JSON.");
+    ctx.set_rule("lattice (seed-independent, success clause): hydrocarbon pairs of gross2001 (formula only C,H) with pure-T_c ratio < 1.5 x T/T_c,low in {0.65,..,0.9} x x_1 in {0.05,0.2,..,0.95}; each case = bubble(T,x) + dew(T,x) with default options and with two loose inner option sets (max_iter 2 / tol 1e-2; tol 1e-2) under default outer options + flashes at p = p_dew + theta (p_bub - p_dew), theta in {0.1,0.5,0.9} when p_bub/p_dew > 1.05, at theta = 0.5 also with an initial state solved at T (1 +- 2 %) (narrower envelopes excluded and counted as a class); quick tier: every 4th admissible pair, thorough: all pairs. nearcrit (seed-independent, soundness): the 66 pairs of 12 light gross2001 hydrocarbons x x_1 in {0.2,0.4,0.6,0.8} x T/T_c(x) in {0.95,..,0.98} (T_c(x) from State::critical_point of the feed) x flash max_iter in {default,1,2,3} at the middle of the envelope: slow convergence; a flash that returns Ok must meet the default tolerance. points (sampled): binary/ternary mixtures of shipped PC-SAFT hydrocarbons (all files), other PC-SAFT records of the small files, gc-PC-SAFT (gc_substances x 3 segment tables), SAFT-VR Mie (lafitte2013); partner records chosen with T_c ratio < 1.8; k_ij in +-0.08 (p 0.6) or the shipped binary record; T/T_c,low in [0.6,0.95]; composition in the simplex with x_i >= 0.02; option pairs (inner: default 40 %, tight 20 % (max_iter 2-20, tol 1e-11..1e-7), loose 40 % (max_iter 1-5 and/or tol 1e-6..1e-2, then mostly with default outer options); outer 30-800, 1e-12..1e-8; flash: default 50 %, max_iter 20-800 / tol 1e-11..1e-6 25 %, max_iter 1-5 with default tolerance 25 %), initial pressure within a factor 3, perturbed incipient composition, p-specification with initial T within 5 %, flash initial states (perturbed phases, bubble-point phases, the converged result re-fed with another feed, a flash result solved at T (1 +- 1..4 %)), State::tp_flash vs PhaseEquilibrium::tp_flash, feed amount 1e-2..1e2 mol. diagram (sampled): binary_vle at given T / at given p, bubble_point_line, dew_point_line with npoints in [5,60]. hetero (sampled): gross2002 water + 11 alcohols / 10 hydrocarbons, 290-420 K: heteroazeotrope(T), heteroazeotrope(p), binary_vlle, PhaseDiagram::lle, liquid-liquid tp_flash. Non-trivial: a flash with vapor fraction in (0.02,0.98) and all |K_i - 1| > 5 %; or >= 2 checked bubble/dew results with |K_i - 1| > 5 % of which one used a non-default option or guess; diagrams: >= 3 regular states with |K_i-1| > 5 %; hetero: liquids differing by > 0.05 in x_water. Distinct by hash of the canonical case JSON.");
     ctx.assume("every condition is recomputed from fresh states State::new_nvt(T,V,N) of the returned phases (public getters ln_phi, molefracs, pressure)");
     ctx.assume("fugacity equality is tested on ln f_i = ln(x_i phi_i p) (tolerance 1e-6 = 100 x the flash tolerance, or 100 x a looser sampled tolerance) and pressure equality separately (1e-7 relative + an absolute term in reduced units: 1e-10 flash = 100 x the density-iteration tolerance, 1e-7 bubble/dew = 1000 x TOL_OUTER, 1e-6 heteroazeotrope = 100 x TOL_HETERO; diagram states above 0.95 T_c,low, outside the temperature range of the quantifier, 100 x looser): ln(x_i phi_i) alone contains -ln p of each phase, so a pressure roundoff of a liquid at vanishing pressure would otherwise show up as a fugacity mismatch");
     ctx.assume("bubble/dew results answer to the OUTER tolerance only (inner options steer the inner loop); on the lattice loose inner options with default outer options must still succeed");
@@ -1526,13 +1673,17 @@ pub fn run(ctx: &Ctx) {
     ctx.assume("success clause domain as stated in DESIGN.md C05; T_c of the pure records from State::critical_point (cached), validated by C06");
     // lattice
     // calibration knobs (not used by registered commands): C05_PARTS=lattice,points,... C05_STRIDE=n
-    let parts = std::env::var("C05_PARTS").unwrap_or_else(|_| "lattice,points,diagram,hetero".into());
+    let parts = std::env::var("C05_PARTS").unwrap_or_else(|_| "lattice,nearcrit,points,diagram,hetero".into());
     let on = |p: &str| parts.split(',').any(|q| q == p);
     let stride = std::env::var("C05_STRIDE").ok().and_then(|s| s.parse().ok()).unwrap_or(ctx.pick(4, 1));
     if on("lattice") {
         let items = lattice_items(stride);
         ctx.extra("lattice_pairs", json!(items.len() / (LATTICE_T.len() * LATTICE_X.len())));
         ctx.run_lattice("lattice", items, PanicPolicy::Violation, stride == 1, &check_lattice);
+    }
+    if on("nearcrit") {
+        let items = nearcrit_items(ctx.pick(1, 1));
+        ctx.run_lattice("nearcrit", items, PanicPolicy::Count, false, &check_nearcrit);
     }
     if on("points") {
         ctx.run_sampled(&scaled(&PART_POINTS), &decode_points, &check_points);
@@ -1550,6 +1701,7 @@ pub fn replay(ctx: &Ctx, part: &str, case: &Value) -> bool {
     let ok = match part {
         "lattice" => ctx.replay_case::<LatticeCase>(case, &check_lattice),
         "points" => ctx.replay_case::<PointsCase>(case, &check_points),
+        "nearcrit" => ctx.replay_case::<NearCritCase>(case, &check_nearcrit),
         "diagram" => ctx.replay_case::<DiagramCase>(case, &check_diagram),
         "hetero" => ctx.replay_case::<HeteroCase>(case, &check_hetero),
         other => {
